@@ -55,4 +55,71 @@ theorem int_bounds_exact (k : IntKind) (n : Int) (hk : k ≠ .int ∧ k ≠ .uin
   cases k <;>
     simp [NumOK, GeOpt, LeOpt, fmtLo, fmtHi, kindFmt, kindLo, kindHi, intLo, intHi] at h hk ⊢ <;> omega
 
+
+/-! ### witnesses (kernel-checked on the model; the same inputs are in corpus/C18 and replayed on the Go code) -/
+
+def tagF (go tag : String) : FMeta := { goName := go, hasTag := true, tagName := tag }
+
+/-- `type Node struct { Next *Node `json:"next"` }` -/
+def ΔNode : Decls := [("Node", [(tagF "Next" "next", .ptr (.named "Node"))])]
+def sNode : Sch := .node "object" false "" none none none [("next", .ref "Node")] none false
+
+/-- Finding #19: the generator's output for `Node` (root and component), the value `Node{}`, its encoding
+`{"next":null}`: in the domain, inside `NilAtCycle`, and rejected. -/
+theorem witness_nil_at_cycle :
+    (genRoot ΔNode false 10 (.named "Node")).1 = .ok sNode ∧
+    candidatesFor (genRoot ΔNode false 10 (.named "Node")).2 "Node" = [sNode] ∧
+    HasType ΔNode (.struct [.nil]) (.named "Node") ∧
+    encode ΔNode (.named "Node") (.struct [.nil]) = .obj [("next", .null)] ∧
+    NilAtCycle [("Node", sNode)] sNode (.obj [("next", .null)]) ∧
+    acceptB [("Node", sNode)] sNode (.obj [("next", .null)]) = false := by
+  refine ⟨by rfl, by rfl, by decide, by rfl, by decide, by decide⟩
+
+/-- Finding #32: `struct { N int `json:"n,string"` }` with N = 5 encodes `{"n":"5"}`; the generated schema
+demands an integer. -/
+def tQuoted : GoType := .struct [({ goName := "N", hasTag := true, tagName := "n", quoted := true }, .int .int)]
+theorem witness_quoted :
+    (genRoot [] false 10 tQuoted).1 = .ok (.node "object" false "" none none none [("n", leaf "integer" false "" none none)] none false) ∧
+    HasType [] (.struct [.i 5]) tQuoted ∧ HasQuoted [] tQuoted ∧
+    encode [] tQuoted (.struct [.i 5]) = .obj [("n", .str "5")] ∧
+    acceptB [] (.node "object" false "" none none none [("n", leaf "integer" false "" none none)] none false)
+      (.obj [("n", .str "5")]) = false := by
+  refine ⟨by rfl, by decide, by decide, by rfl, by decide⟩
+
+/-- New finding: `struct { X string `json:"x"`; Inner }` with `Inner struct { X int `json:"x"` }`:
+encoding/json keeps the outer field (`{"x":"a"}`), the generator keeps the embedded one (integer). -/
+def tDup : GoType := .struct [(tagF "X" "x", .string),
+  ({ goName := "Inner", embedded := true }, .struct [(tagF "X" "x", .int .int)])]
+theorem witness_dup_names :
+    (genRoot [] false 10 tDup).1 = .ok (.node "object" false "" none none none [("x", leaf "integer" false "" none none)] none false) ∧
+    HasType [] (.struct [.s "a", .struct [.i 1]]) tDup ∧ DupNames [] tDup ∧
+    encode [] tDup (.struct [.s "a", .struct [.i 1]]) = .obj [("x", .str "a")] ∧
+    acceptB [] (.node "object" false "" none none none [("x", leaf "integer" false "" none none)] none false)
+      (.obj [("x", .str "a")]) = false := by
+  refine ⟨by rfl, by decide, by decide, by rfl, by decide⟩
+
+/-- Map-order nondeterminism of the component export: for `struct { A Node; B *Node }` the name `Node` has
+two candidates, one nullable and one not; with the first `{"next":null}` below the reference is accepted,
+with the second it is rejected. -/
+def tBoth : GoType := .struct [(tagF "A" "a", .named "Node"), (tagF "B" "b", .ptr (.named "Node"))]
+theorem witness_component_choice :
+    (candidatesFor (genRoot ΔNode false 10 tBoth).2 "Node").map
+      (fun s => match s with | .node _ nl _ _ _ _ _ _ _ => nl | _ => false) = [true, false] := by
+  decide
+
+/-! ### non-vacuity: a recursive type, a value with a non-nil and a nil pointer outside every exclusion class -/
+
+/-- `type T struct { Kids []*T `json:"kids"`; N int8 `json:"n"` }` with `T{Kids: {&T{Kids: {}, N: -128}}, N: 127}` -/
+def ΔKids : Decls := [("T", [(tagF "Kids" "kids", .slice (.ptr (.named "T"))), (tagF "N" "n", .int .int8)])]
+def vKids : GoVal := .struct [.slice [.ref (.struct [.slice [], .i (-128)])], .i 127]
+def sKids : Sch := .node "object" false "" none none none
+  [("kids", .node "array" false "" none none (some (.ref "T")) [] none false),
+   ("n", leaf "integer" false "" (some (-128)) (some 127))] none false
+
+example : (genRoot ΔKids false 12 (.named "T")).1 = .ok sKids ∧
+    HasType ΔKids vKids (.named "T") ∧ ¬ HasQuoted ΔKids (.named "T") ∧ ¬ DupNames ΔKids (.named "T") ∧
+    ¬ NilAtCycle [("T", sKids)] sKids (encode ΔKids (.named "T") vKids) ∧
+    acceptB [("T", sKids)] sKids (encode ΔKids (.named "T") vKids) = true := by
+  refine ⟨by rfl, by decide, by decide, by decide, by decide, by decide⟩
+
 end KinModel.Gen3
